@@ -80,6 +80,9 @@ type Spec struct {
 	// file and a temporary file), consumers check their file arguments, and at
 	// completion the final VDR sweep and post-processing run as in mrp.
 	Files bool `json:"files"`
+	// Post: the top-level outputs record as it must look after post-processing
+	// (PostProc.tla Materialise): moved files are [k "moved", f, rel]
+	Post json.RawMessage `json:"post"`
 	// VdrJitter: asynchronous cleanup goroutines are delayed by up to this many
 	// microseconds (seeded) before they take the fork's storage lock.
 	VdrJitter int `json:"vdr_jitter"`
@@ -111,6 +114,8 @@ type Result struct {
 	Trace    []map[string]interface{} `json:"-"`
 	Notes    []string               `json:"notes"`
 	// per-fork _invocation files of stages: how many were checked, which are wrong
+	PostChecked int      `json:"post_checked"`
+	PostBad     []string `json:"post_bad"`
 	InvChecked int      `json:"inv_checked"`
 	InvBad     []string `json:"inv_bad"`
 }
@@ -382,6 +387,9 @@ func (d *Driver) checkFiles(v interface{}) []string {
 		}
 		seen[f.Key()] = true
 		p := d.resolve(f)
+		if strings.HasSuffix(f.Name, ".missing") {
+			continue
+		}
 		if strings.HasSuffix(f.Name, ".d") {
 			p = path.Join(p, "a.dat")
 		}
@@ -426,6 +434,78 @@ func (d *Driver) writeFiles(j *job, outs interface{}) interface{} {
 			if dir, err := filepath.EvalSymlinks(path.Dir(p)); err == nil {
 				p = path.Join(dir, path.Base(p))
 			}
+		}
+		if strings.HasSuffix(f.Name, ".missing") {
+			// the stage names a file it never wrote
+			d.fmu.Lock()
+			d.filePath[f.Key()] = canon(p)
+			d.fileJob[f.Key()] = j.key
+			d.fmu.Unlock()
+			continue
+		}
+		if strings.HasSuffix(f.Name, ".lnk2") {
+			// link -> sub/link -> deep/target, all relative
+			dir := path.Dir(p)
+			os.MkdirAll(path.Join(dir, "sub", "deep"), 0755)
+			tgt := path.Join(dir, "sub", "deep", path.Base(p)+".target")
+			writeFile(tgt, fileContent(f.Key()))
+			os.Symlink(path.Join("deep", path.Base(tgt)), path.Join(dir, "sub", path.Base(p)+".l2"))
+			os.Symlink(path.Join("sub", path.Base(p)+".l2"), p)
+			d.fmu.Lock()
+			d.filePath[f.Key()] = canon(p)
+			d.fileJob[f.Key()] = j.key
+			d.fmu.Unlock()
+			d.tr.Emit("FileWritten", "job", j.key, "file", f.Key(), "path", d.rel(p))
+			continue
+		}
+		if strings.HasSuffix(f.Name, ".lnk") {
+			// the output is a symbolic link to a file of the stage
+			tgt := p + ".target"
+			writeFile(tgt, fileContent(f.Key()))
+			os.Symlink(path.Base(tgt), p)
+			d.fmu.Lock()
+			d.filePath[f.Key()] = canon(p)
+			d.fileJob[f.Key()] = j.key
+			d.extras[j.key+"##"+f.Name] = canon(tgt)
+			d.fmu.Unlock()
+			d.tr.Emit("FileWritten", "job", j.key, "file", f.Key(), "path", d.rel(p))
+			continue
+		}
+		if strings.HasSuffix(f.Name, ".missing") {
+			// the stage names a file it never wrote
+			d.fmu.Lock()
+			d.filePath[f.Key()] = canon(p)
+			d.fileJob[f.Key()] = j.key
+			d.fmu.Unlock()
+			continue
+		}
+		if strings.HasSuffix(f.Name, ".lnk2") {
+			// link -> sub/link -> deep/target, all relative
+			dir := path.Dir(p)
+			os.MkdirAll(path.Join(dir, "sub", "deep"), 0755)
+			tgt := path.Join(dir, "sub", "deep", path.Base(p)+".target")
+			writeFile(tgt, fileContent(f.Key()))
+			os.Symlink(path.Join("deep", path.Base(tgt)), path.Join(dir, "sub", path.Base(p)+".l2"))
+			os.Symlink(path.Join("sub", path.Base(p)+".l2"), p)
+			d.fmu.Lock()
+			d.filePath[f.Key()] = canon(p)
+			d.fileJob[f.Key()] = j.key
+			d.fmu.Unlock()
+			d.tr.Emit("FileWritten", "job", j.key, "file", f.Key(), "path", d.rel(p))
+			continue
+		}
+		if strings.HasSuffix(f.Name, ".lnk") {
+			// the output is a symbolic link to a file of the stage
+			tgt := p + ".target"
+			writeFile(tgt, fileContent(f.Key()))
+			os.Symlink(path.Base(tgt), p)
+			d.fmu.Lock()
+			d.filePath[f.Key()] = canon(p)
+			d.fileJob[f.Key()] = j.key
+			d.extras[j.key+"##"+f.Name] = canon(tgt)
+			d.fmu.Unlock()
+			d.tr.Emit("FileWritten", "job", j.key, "file", f.Key(), "path", d.rel(p))
+			continue
 		}
 		if strings.HasSuffix(f.Name, ".d") {
 			// a directory output with two files in it
@@ -966,6 +1046,7 @@ func (d *Driver) finalSweep(ctx context.Context) {
 	}
 	d.tr.Emit("VdrSweepDone")
 	d.ps.PostProcess()
+	d.checkPost()
 	d.fmu.Lock()
 	defer d.fmu.Unlock()
 	var present, damaged, gone []string
@@ -1018,6 +1099,121 @@ func (d *Driver) finalSweep(ctx context.Context) {
 		"report_count", count, "report_size", size, "listed_exists", listedExists,
 		"removed_entries", d.removed.Entries, "removed_bytes", d.removed.Bytes,
 		"removed_files", d.removed.Files, "removed_file_bytes", d.removed.FileBytes)
+}
+
+// checkPost compares the rewritten top-level _outs and the outs/ tree with
+// what PostProc.tla says (C13).
+func (d *Driver) checkPost() {
+	if len(d.spec.Post) == 0 {
+		return
+	}
+	var act interface{}
+	comps, _ := os.ReadDir(d.psdir)
+	for _, c := range comps {
+		if c.IsDir() && c.Name() != "journal" && c.Name() != "tmp" && c.Name() != "outs" {
+			b, err := os.ReadFile(path.Join(d.psdir, c.Name(), "fork0", "_outs"))
+			if err != nil {
+				d.res.PostBad = append(d.res.PostBad, "cannot read the rewritten _outs: "+err.Error())
+				return
+			}
+			if err := json.Unmarshal(b, &act); err != nil {
+				d.res.PostBad = append(d.res.PostBad, "the rewritten _outs is not valid JSON: "+err.Error()+": "+string(b))
+				return
+			}
+		}
+	}
+	d.walkPost("", d.spec.Post, act)
+}
+
+func (d *Driver) walkPost(where string, exp json.RawMessage, act interface{}) {
+	bad := func(f string, a ...interface{}) {
+		d.res.PostBad = append(d.res.PostBad, where+": "+fmt.Sprintf(f, a...))
+	}
+	var m map[string]json.RawMessage
+	json.Unmarshal(exp, &m)
+	var k string
+	json.Unmarshal(m["k"], &k)
+	switch k {
+	case "moved":
+		d.res.PostChecked++
+		v, _ := Untag(m["f"])
+		f := v.(FileRef)
+		var rel string
+		json.Unmarshal(m["rel"], &rel)
+		want := path.Join(d.psdir, "outs", rel)
+		if strings.HasSuffix(f.Name, ".missing") {
+			if act != nil {
+				bad("a file that does not exist must become null, got %v", act)
+			}
+			return
+		}
+		s, ok := act.(string)
+		if !ok {
+			bad("expected the path %s, got %v", d.rel(want), act)
+			return
+		}
+		link := strings.HasSuffix(f.Name, ".lnk") || strings.HasSuffix(f.Name, ".lnk2")
+		if link {
+			// an output that is a symbolic link: the record names the link's
+			// destination (by design); the file must still be available under outs/
+			if b, err := os.ReadFile(want); err != nil || string(b) != string(fileContent(f.Key())) {
+				bad("the output is not available with its content at the derived location %s", d.rel(want))
+			}
+		} else if canon(s) != canon(want) {
+			bad("the record points at %s, the derived location is %s", d.rel(s), d.rel(want))
+		}
+		check := s
+		if strings.HasSuffix(f.Name, ".d") {
+			check = path.Join(s, "a.dat")
+		}
+		if b, err := os.ReadFile(check); err != nil {
+			bad("nothing readable at the recorded location %s: %v", d.rel(s), err)
+		} else if string(b) != string(fileContent(f.Key())) {
+			bad("the content at %s is not what the stage wrote", d.rel(s))
+		}
+		if !link && !inside(canon(s), canon(path.Join(d.psdir, "outs"))) {
+			bad("the recorded location %s is not under outs/", d.rel(s))
+		}
+	case "arr":
+		var es []json.RawMessage
+		json.Unmarshal(m["a"], &es)
+		a, ok := act.([]interface{})
+		if !ok || len(a) != len(es) {
+			if !(len(es) == 0 && act == nil) {
+				bad("expected an array of %d, got %v", len(es), act)
+			}
+			return
+		}
+		for i := range es {
+			d.walkPost(where+"["+strconv.Itoa(i)+"]", es[i], a[i])
+		}
+	case "obj":
+		var o map[string]json.RawMessage
+		json.Unmarshal(m["o"], &o)
+		a, ok := act.(map[string]interface{})
+		if !ok {
+			if !(len(o) == 0 && act == nil) {
+				bad("expected an object, got %v", act)
+			}
+			return
+		}
+		for kk, e := range o {
+			d.walkPost(where+"."+kk, e, a[kk])
+		}
+		for kk := range a {
+			if _, ok := o[kk]; !ok {
+				bad("unexpected key %s", kk)
+			}
+		}
+	default:
+		pv, err := Untag(exp)
+		if err != nil {
+			return
+		}
+		if !Same(pv, act, d.resolve) {
+			bad("value changed: expected %s got %s", Canon(Resolve(pv, d.resolve)), Canon(act))
+		}
+	}
 }
 
 // checkInvocations: the _invocation mrp records for every stage fork must be a
